@@ -45,6 +45,8 @@ def run(check: Check):
   _average_loss(check)
   _finalize(check)
   _domain_metrics(check)
+  _domain_mean(check)
+  _full_batch_gradient(check)
   _regularizer_sites(check)
 
 
@@ -272,6 +274,56 @@ def _domain_metrics(check: Check):
     why = f'loss multiplied by the mask before the segment sum={masked}; same ids and number of segments={same_ids}'
   check.ob('R-MASK.pair', step, 'segment_sum(loss * mask, ids, n) / segment_sum(mask, ids, n)', ok,
            f'per-domain loss sums and counts ignore padded rows and agree on the segmentation: {why}')
+
+
+def _domain_mean(check: Check):
+  """AgnosticFedAvg: the per-domain mean loss divides the masked loss sums by the masked counts with a zero guard."""
+  repo = check.repo
+  su = repo.func('fedjax.algorithms.agnostic_fed_avg', 'agnostic_federated_averaging').nested('server_update')
+  ff = FuncFlow.of(repo, su)
+  check.analysed(su)
+  dv = DivAnalysis(repo)
+  for s_ in dv.sites(su):
+    check.ob('R-DIV', su, '/ ' + txt(s_.denom)[:60], s_.cls != 'DATA' or s_.guard is not None,
+             f'{txt(s_.node)[:70]}: per-domain counts can be zero (a domain without real examples this round): denominator is '
+             f'{s_.cls}; guard: {s_.guard}', node=s_.node)
+  ok = False
+  for _, c in ff.calls():
+    if wmean.repo_fn(ff, c) == SAFE_DIV and len(c.args) == 2:
+      ok = ff.param_of(c.args[0]) is not None and ff.param_of(c.args[1]) is not None
+  check.ob('R-DIV', su, 'safe_div(sum_domain_loss, sum_domain_num)', ok,
+           'a domain without real examples gets mean loss 0 instead of 0/0 = NaN (which would poison every domain weight)')
+
+
+def _full_batch_gradient(check: Check):
+  """Mime / MimeLite: numerator and denominator of the full-batch gradient are the two components of one tree_sum of the
+  per-client (count-weighted gradient sum, count) pairs, unmodified."""
+  repo = check.repo
+  n = 0
+  for modname in ('fedjax.algorithms.mime', 'fedjax.algorithms.mime_lite'):
+    for a in entries.find_algorithms(repo, [repo.module(modname)]):
+      fi = a.apply
+      ff = FuncFlow.of(repo, fi)
+      for _, c in ff.calls():
+        if wmean.repo_fn(ff, c) not in wmean.INV or len(c.args) < 2:
+          continue
+        S, W = c.args[0], c.args[1]
+        if not (isinstance(S, ast.Name) and isinstance(W, ast.Name)):
+          continue
+        ds, dw = ff.defs_for(S), ff.defs_for(W)
+        from_sum = lambda d: d.kind == 'assign' and isinstance(d.value, ast.Call) and wmean.repo_fn(ff, d.value) in wmean.SUM and d.index is not None
+        if not (any(from_sum(d) for d in ds) or any(from_sum(d) for d in dw)):
+          continue  # this is the client-delta mean, not the gradient pair
+        n += 1
+        same_call = len(ds) == 1 and len(dw) == 1 and from_sum(next(iter(ds))) and from_sum(next(iter(dw))) and next(iter(ds)).value is next(
+            iter(dw)).value and next(iter(ds)).index == (0,) and next(iter(dw)).index == (1,)
+        extra = [txt(d.value)[:50] for d in list(ds) + list(dw) if not from_sum(d) and d.value is not None]
+        check.ob('R-WMEAN.pair-sum', fi, txt(c)[:80], same_call,
+                 'sum of count-weighted gradients and sum of counts come unmodified from one tree_sum over the clients' if same_call else
+                 f'the gradient sum or the count is modified between the sum over clients and the division ({extra}): anything added '
+                 f'to the count-weighted sum (e.g. a regulariser gradient) is divided by the number of examples instead of entering once',
+                 node=c)
+  check.floor('R-WMEAN.pair-sum', 'full-batch gradient sites', n, 2)
 
 
 def _regularizer_sites(check: Check):
